@@ -20,14 +20,17 @@ CONN_OPS = ("disconnect", "resume", "reload")
 # how long a NewSubscriber on an unreachable registry takes to fail (exported internal.DialTimeout,
 # default 5 s; nothing listens at those endpoints, so the outcome does not depend on the value)
 DIAL_MS = 2
-ENV = dict(VERIF_C15_VALOF="k1=va,k2=va,k3=vb,k4=vb", VERIF_C15_DIAL_TIMEOUT_MS=DIAL_MS)
+ENV = dict(VERIF_C15_VALOF="k1=va,k2=va,k3=vb,k4=vb,r1=vb,r3=va", VERIF_C15_IDOF="r1=k1,r3=k3",
+           VERIF_C15_DIAL_TIMEOUT_MS=DIAL_MS)
 
 
-def consts(valof, subs, excl, mid, missed=3):
+def consts(valof, subs, excl, mid, missed=3, idof=None):
+    """valof: life -> value; idof: life -> name of the key in etcd (default: the life's own name)."""
     keys = sorted(valof)
     q = lambda xs: "{" + ",".join('"%s"' % x for x in xs) + "}"
     f = "(" + " @@ ".join('("%s" :> "%s")' % (k, valof[k]) for k in keys) + ")"
-    K = dict(Keys=q(keys), Vals=q(sorted(set(valof.values()))), ValOf=f, Subs=q(subs), Excl=q(excl),
+    g = "(" + " @@ ".join('("%s" :> "%s")' % (k, (idof or {}).get(k, k)) for k in keys) + ")"
+    K = dict(Keys=q(keys), Vals=q(sorted(set(valof.values()))), ValOf=f, IdOf=g, Subs=q(subs), Excl=q(excl),
              MaxMissed=missed, MidLen=mid)
     return K, ",".join("%s=%s" % (k, valof[k]) for k in keys)
 
@@ -35,6 +38,9 @@ def consts(valof, subs, excl, mid, missed=3):
 V2 = dict(k1="va", k2="va")
 V3 = dict(k1="va", k2="va", k3="vb")
 V4 = dict(k1="va", k2="va", k3="vb", k4="vb")
+# lives r1 / r3: the keys k1 / k3 registered again with the other value (k3 / r1 share vb, k1 / r3 share va)
+VR = dict(k1="va", k3="vb", r1="vb", r3="va")
+IDR = dict(r1="k1", r3="k3")
 
 META = dict(
     text="Model-based replay: spec/Discov.tla describes a model etcd (keys under one prefix, two keys sharing a "
@@ -68,6 +74,13 @@ META = dict(
          "follow (1 and 2 subscribers; also sampled into the Get-fault, sibling and connection-state stages and "
          "the simulations); DiscovImpl.tla carries the listener left registered by the failed attempt and rejects "
          "(JoinSkip) a Monitor that takes a registered listener for a running watch. "
+         "A key that expires and is registered again with another value starts a new life (Discov.tla: Keys are lives, "
+         "IdOf = the key's name in etcd, at most one life per id present, a life begins only when no other life of its id "
+         "is present): plans r* (generator constant QuietUp: the registry changes only during outages) enumerate "
+         "delete + put-with-another-value inside one outage - re-creation, re-creation with a value another live key "
+         "carries, values swapped between two keys - for a plain, an exclusive and two subscribers; the reload snapshot "
+         "then shows a key the cluster knew with another value (step field reval) and Values() must be the distinct "
+         "values of the live keys (keys C15:stale-value|missing-value:<mode>:recreated-with-other-value). "
          "The driver waits for a watch after NewSubscriber only if that call took a snapshot (a joiner served from the "
          "cache starts none); a call of the code under test that is stuck at a barrier time-out (blocked inside the "
          "repository's code, unmoved a second later) and a panic / fatal error inside it - recovered on the driver's "
@@ -82,13 +95,14 @@ META = dict(
          "subscribers attaching while the watch is down, a registry becoming unreachable again for NewSubscriber "
          "after the first success (the client, once made, is kept), the real client's own dial/retry behaviour beyond "
          "'returns an error after DialTimeout', "
-         "watch channel errors/cancellation, compaction, a key changing its value without the subscriber seeing the "
-         "delete (outside the statement's 'one value during its life' only if the key is re-created; probed, see "
-         "evidence notes), events being processed concurrently with a reload (cluster.reload waits for the watch "
+         "watch channel errors/cancellation, compaction, an in-place overwrite of a LIVE key with another value "
+         "(excluded by the statement's 'one value during its life'; never generated), the mechanism model DiscovImpl "
+         "for re-created keys (it is checked with one life per key; the order of OnDelete/OnAdd for a key whose value "
+         "changed is judged on the real code only), events being processed concurrently with a reload (cluster.reload waits for the watch "
          "goroutines while holding the cluster lock: observed to deadlock when an event is in flight; outside the "
          "statement's 'once all delivered events have been processed'). Exclusive mode: where a snapshot/replay "
-         "gives no order among keys sharing a value every order is admitted. Bounds: <= 4 keys, 2 values, <= 3 "
-         "subscribers, <= 3 missed changes per outage, <= 1 change between snapshot and new watch.",
+         "gives no order among keys sharing a value every order is admitted. Bounds: <= 4 keys (or 2 keys with 2 lives each), 2 values, <= 3 "
+         "subscribers, <= 3 (re-creation plans: 4) missed changes per outage, <= 1 change between snapshot and new watch.",
     technique="TLA+ spec (Discov/DiscovImpl) + TLC-generated behaviours replayed through discov.NewSubscriber on a scripted etcd",
     design="4/C15")
 
@@ -104,7 +118,7 @@ def mc(ctx):
     cfg = core.render_cfg(spec="Spec", constants=K, invariants=["TypeOK", "Converged", "ExclSound"],
                           properties=["Listeners"], view="core")
     r = ctx.tlc("Discov", cfg, constants=K, name="Discov-mc", workers=(2 if ctx.quick else 4), coverage=True, timeout=900, heap="3g")
-    ctx.check_coverage(r, ["Change", "Delete", "Disconnect", "Resume", "Reload", "Attach"])
+    ctx.check_coverage(r, ["Put", "Delete", "Disconnect", "Resume", "Reload", "Attach"])
     if "AttachFail" not in r.coverage:
         raise core.Infra("vacuous model: action AttachFail never evaluated (coverage keys: %s)" % sorted(r.coverage))
     # mechanism model (snapshot diff base, container maps) against the abstract spec
@@ -133,8 +147,8 @@ def mc(ctx):
                          "is not rejected after a failed first attempt")
 
 
-def gen(ctx, name, K, maxlen, maxdisc, maxreload, simulate=None, minfail=0, maxfail=0):
-    G = dict(K, MaxLen=maxlen, MaxDisc=maxdisc, MaxReload=maxreload, MinFail=minfail, MaxFail=maxfail)
+def gen(ctx, name, K, maxlen, maxdisc, maxreload, simulate=None, minfail=0, maxfail=0, quietup=False):
+    G = dict(K, MaxLen=maxlen, MaxDisc=maxdisc, MaxReload=maxreload, MinFail=minfail, MaxFail=maxfail, QuietUp=quietup)
     cfg = core.render_cfg(spec="GSpec", constants=G, invariants=["Emit"])
     r = ctx.tlc("DiscovGen", cfg, constants=G, name=name, simulate=simulate, depth=maxlen + 1, timeout=1500,
                 workers=(1 if simulate else 6), heap="4g")
@@ -151,6 +165,12 @@ def run(ctx):
     B, _ = consts(V3, ["s1", "x1"], ["x1"], 1)
     X, _ = consts(V3, ["x1"], ["x1"], 1)
     D, _ = consts(V4, ["s1", "s2", "x1"], ["x1"], 1)
+    # r*: keys that expire and are registered again with another value (lives r1 = k1 with k3's value,
+    # r3 = k3 with k1's value: re-creation, re-creation with a value another live key has, swap);
+    # the registry changes only during the outages, so that the length goes into delete + put + reload
+    RA, _ = consts(VR, ["s1"], [], 0, missed=4, idof=IDR)
+    RX, _ = consts(VR, ["x1"], ["x1"], 0, missed=4, idof=IDR)
+    RB, _ = consts(VR, ["s1", "x1"], ["x1"], 0, missed=3, idof=IDR)
     # g*: histories whose first NewSubscriber succeeds; f*: histories that begin with 1..2 attempts
     # failing because the registry cannot be reached, then the retry, then the usual steps
     if ctx.quick:
@@ -158,6 +178,9 @@ def run(ctx):
                  ("gB4", B, dict(maxlen=4, maxdisc=1, maxreload=2))]
         fplans = [("fA6", A, dict(maxlen=6, maxdisc=2, maxreload=2, minfail=1, maxfail=1)),
                   ("fB4", B, dict(maxlen=4, maxdisc=1, maxreload=2, minfail=1, maxfail=2))]
+        rplans = [("rA7", RA, dict(maxlen=7, maxdisc=1, maxreload=1, quietup=True)),
+                  ("rX7", RX, dict(maxlen=7, maxdisc=1, maxreload=1, quietup=True)),
+                  ("rB6", RB, dict(maxlen=6, maxdisc=1, maxreload=1, quietup=True))]
         sims = [("sB12", B, dict(maxlen=12, maxdisc=3, maxreload=3, maxfail=1), 600)]
     else:
         plans = [("gA8", A, dict(maxlen=8, maxdisc=3, maxreload=3)),
@@ -165,10 +188,13 @@ def run(ctx):
                  ("gX5", X, dict(maxlen=5, maxdisc=2, maxreload=3))]
         fplans = [("fA7", A, dict(maxlen=7, maxdisc=2, maxreload=2, minfail=1, maxfail=2)),
                   ("fB5", B, dict(maxlen=5, maxdisc=1, maxreload=2, minfail=1, maxfail=2))]
+        rplans = [("rA9", RA, dict(maxlen=9, maxdisc=2, maxreload=2, quietup=True)),
+                  ("rX9", RX, dict(maxlen=9, maxdisc=2, maxreload=2, quietup=True)),
+                  ("rB7", RB, dict(maxlen=7, maxdisc=1, maxreload=2, quietup=True))]
         sims = [("sB14", B, dict(maxlen=14, maxdisc=4, maxreload=4, maxfail=1), 5000),
                 ("sD20", D, dict(maxlen=20, maxdisc=5, maxreload=6, maxfail=2), 5000)]
     ctx.exhaustive = True
-    for name, K, kw in plans + fplans:
+    for name, K, kw in plans + fplans + rplans:
         cases = gen(ctx, name, K, **kw)
         path, cnt = ctx.write_cases(name + ".ndjson", cases)
         ctx.samples += core.sample_of(cases, 1)
@@ -232,6 +258,10 @@ def run(ctx):
         ctx.notes["harness_problem_besides_disagreement"] = str(ctx._c15_deferred[0])[:1500]
     if not ctx.disagreements:
         vacuity(ctx, [n for n, _, _ in fplans])
+        for n, _, _ in rplans:
+            if ctx.counters.get(n + ".revalued_reloads", 0) < 50:
+                raise core.Infra("vacuous run: plan %s replayed only %d reloads whose snapshot shows a known key with another "
+                                 "value" % (n, ctx.counters.get(n + ".revalued_reloads", 0)))
 
 
 SHARDS = 8
@@ -491,7 +521,8 @@ def sibling_cases(ctx, cases, n):
 
 
 def probe(ctx):
-    """Measured, not judged: a key re-created with another value during an outage."""
+    """A key re-created with another value during an outage, outside the generated behaviours (kept as a
+    plain record next to the judged plans r*)."""
     import json, os
     out = os.path.join(ctx.build, "c15probe.json")
     rc, txt = ctx.go_test(PKG, OVERLAY, "^TestVerifC15Probe$", env=dict(VERIF_C15_PROBE_OUT=out), name="probe", timeout=120)
